@@ -108,7 +108,29 @@ func checkOrigin(b []byte, rel bool, from, to uint64) string {
 		if rel {
 			return "12-byte form but relative()=true"
 		}
-		return checkAbsX86(b, to, false, 64)
+		// the destination of a trampoline return is a CODE address (origin + relocated length), not a function value:
+		// MOVABS RDX,to ; JMP [RDX] jumps to the eight bytes STORED at to and overwrites the context register
+		if checkAbsX86(b, to, false, 64) == "" {
+			return "far form is MOVABS RDX,to; JMP [RDX]: control goes to the 8 bytes stored at the destination, not to the destination, and RDX is overwritten"
+		}
+		return "unexpected 12-byte form"
+	case 14:
+		if rel {
+			return "14-byte form but relative()=true"
+		}
+		// JMP [RIP+0] followed by the destination as an inline 8-byte literal: lands on to, no register changes
+		in, err := refx86.Decode(b, 64)
+		if err != nil || in.Op != refx86.JMP || in.Len != 6 {
+			return "not a 6-byte JMP [RIP+disp32]"
+		}
+		m, ok := in.Args[0].(refx86.Mem)
+		if !ok || m.Base != refx86.RIP || m.Index != 0 || m.Disp != 0 || m.Segment != 0 {
+			return fmt.Sprintf("jmp operand is %v", in.Args[0])
+		}
+		if lit := binary.LittleEndian.Uint64(b[6:14]); lit != to {
+			return fmt.Sprintf("inline literal is %#x, wanted %#x", lit, to)
+		}
+		return ""
 	}
 	return fmt.Sprintf("unexpected length %d", len(b))
 }
